@@ -4627,3 +4627,73 @@ func c16R12(c *Ctx, r *Report) {
 	r.Check(found && panics, rule, "bigint.c:ferret_div_mod_u_limbs", "a zero divisor stops the program", where,
 		"the zero-divisor branch returns quotient 0 and remainder 0: `let one: i128 = 1; let z := zero(); io::Println(one / z);` prints 0 and goes on (the same program with i64 stops)")
 }
+
+// ---- C12.R10: the receiver exemption of the private-field gate is for receivers of that type ------------------
+
+func init() {
+	lateInits = append(lateInits, func() {
+		props["C12"].Quick = append(props["C12"].Quick, c12R10)
+		props["C12"].Explanation += " (R10) the private-field gate exempts a receiver only if it was declared with the struct's own type: the condition that sets the exemption calls a predicate that compares the receiver's declared type (OriginalType before narrowing) with the type whose field is selected."
+	})
+}
+
+func c12R10(c *Ctx, r *Report) {
+	const rule = "C12.R10"
+	r.Describe(rule, "typechecker.checkSelectorExpr: the condition with `Kind == SymbolReceiver` that grants access to a private field has a second conjunct calling a function that reads Symbol.OriginalType and compares types with Equals")
+	fn := c.LookupFn(pkgTC, "checkSelectorExpr")
+	recvKind, _ := c.lookupObj(pkgSymbols, "SymbolReceiver").(*types.Const)
+	orig := c.fieldObj(pkgSymbols, "Symbol", "OriginalType")
+	if !r.Anchor(rule, fn != nil && recvKind != nil && orig != nil, "typechecker.checkSelectorExpr / SymbolReceiver / Symbol.OriginalType") {
+		return
+	}
+	info := fn.Info()
+	ok := false
+	var at token.Pos
+	ast.Inspect(fn.Decl.Body, func(x ast.Node) bool {
+		ifs, isIf := x.(*ast.IfStmt)
+		if !isIf {
+			return true
+		}
+		kindTest, declTest := false, false
+		for _, cj := range conjuncts(ifs.Cond) {
+			if b, isEq := isBinOp(cj, token.EQL); isEq && (constObj(info, b.Y) == recvKind || constObj(info, b.X) == recvKind) {
+				kindTest = true
+				continue
+			}
+			if cl, isCall := ast.Unparen(cj).(*ast.CallExpr); isCall {
+				if f := callee(info, cl); f != nil {
+					if hf := c.FnOf(f); hf != nil && hf.Decl != nil && hf.Decl.Body != nil {
+						readsOrig, equals := false, false
+						ast.Inspect(hf.Decl.Body, func(y ast.Node) bool {
+							if sel, isSel := y.(*ast.SelectorExpr); isSel {
+								if hf.Info().Uses[sel.Sel] == types.Object(orig) {
+									readsOrig = true
+								}
+								if sel.Sel.Name == "Equals" {
+									equals = true
+								}
+							}
+							return true
+						})
+						if readsOrig && equals {
+							declTest = true
+						}
+					}
+				}
+			}
+		}
+		if kindTest {
+			at = ifs.Pos()
+			if declTest {
+				ok = true
+			}
+		}
+		return true
+	})
+	where := c.pos(fn.Decl.Pos())
+	if at != token.NoPos {
+		where = c.pos(at)
+	}
+	r.Check(ok, rule, fn.Name(), "the receiver exemption requires the receiver to be declared with the struct's type", where,
+		"any receiver symbol opens the private fields of whatever type it currently has: `type Either union { Counter, i32 }; fn (u: Either) Leak() -> i32 { if u is Counter { return u.secret; } return 0; }` — a method of Either reads Counter's private field through the narrowed receiver")
+}
